@@ -44,9 +44,11 @@ CHECKS = {
                  HistOps=['collapse_edge', 'delete_cell', 'delete_vertex'],
                  TargetOps=['collapse_edge', 'collect_garbage'], q=1, sample=2500),
             # additions, accepted and rejected (valence guards, open lists, reuse of halfedges / halffaces)
-            dict(name='additions', Depth=1, SeedIds=[1, 2, 8], Modes='ModesDefault', HistOps=[],
+            dict(name='additions', Depth=1, SeedIds=[1, 2, 8, 11], Modes='ModesDefault', HistOps=[],
                  TargetOps=['add_face3', 'add_face_v3', 'add_cell4', 'tet_add_cell_4', 'tet_add_cell_v', 'tet_add_cell_v_taken', 'tet_add_cell_new'],
                  q=1, sample=2000),
+            # every halfface list over a tetrahedron plus two dangling triangles (not sampled)
+            dict(name='additions-dangling', Depth=1, SeedIds=[11], Modes='ModesDefault', HistOps=[], TargetOps=['add_cell4'], q=1),
             # TetTopology / TriangleTopology for every constructor form and all labels
             dict(name='labels', Depth=1, SeedIds=[1, 2, 3, 5, 8, 9], Modes='ModesDefault', HistOps=[],
                  TargetOps=['delete_cell', 'collect_garbage'], q=3),
@@ -58,7 +60,7 @@ CHECKS = {
             dict(name='collapse-3', Depth=3, SeedIds=[2, 3, 5, 6, 8, 9],
                  HistOps=['collapse_edge', 'delete_cell'],
                  TargetOps=['collapse_edge'], q=1, sample=15000),
-            dict(name='additions', Depth=1, SeedIds=[1, 2, 5, 8], Modes='ModesAll', HistOps=[],
+            dict(name='additions', Depth=1, SeedIds=[1, 2, 5, 8, 11], Modes='ModesAll', HistOps=[],
                  TargetOps=['add_face3', 'add_face_v3', 'add_cell4', 'tet_add_cell_4', 'tet_add_cell_v', 'tet_add_cell_v_taken', 'tet_add_cell_new'],
                  q=1, sample=12000),
             dict(name='additions-2', Depth=2, SeedIds=[2, 5, 8], Modes='ModesDefault', HistOps=['delete_cell', 'collapse_edge'],
